@@ -364,15 +364,18 @@ fn c04(quick: bool) -> Vec<Harness> {
     {
         use crate::thworld::{C04Cfg, c04_threads};
         let pb = if quick { 2 } else { 3 };
-        for (sq, c0, submitters, per, sqpoll) in [
-            (1u32, 0u32, 2usize, 1usize, false),
-            (1, 0xffff_ffff, 2, 1, false),
-            (2, 0, 2, 2, false),
-            (2, 0xffff_fffe, 3, 1, false),
-            (1, 0, 2, 1, true),
-            (2, 0xffff_ffff, 2, 2, true),
+        for (sq, c0, submitters, per, sqpoll, single_issuer) in [
+            (1u32, 0u32, 2usize, 1usize, false, false),
+            (1, 0xffff_ffff, 2, 1, false, false),
+            (2, 0, 2, 2, false, false),
+            (2, 0xffff_fffe, 3, 1, false, false),
+            (1, 0, 2, 1, true, false),
+            (2, 0xffff_ffff, 2, 2, true, false),
+            // Single issuer: one thread enters the kernel, every thread still queues submissions.
+            (2, 0, 2, 1, false, true),
+            (4, 0xffff_fffe, 2, 2, false, true),
         ] {
-            v.push(th_harness("C04", c04_threads(C04Cfg { sq, c0, submitters, per, sqpoll, polls: 2 }, pb)));
+            v.push(th_harness("C04", c04_threads(C04Cfg { sq, c0, submitters, per, sqpoll, polls: 2, single_issuer }, pb)));
         }
     }
     let d = |q: usize, t: usize| if quick { q } else { t };
@@ -483,6 +486,10 @@ fn c08(quick: bool) -> Vec<Harness> {
             (2, 2, 0u16.wrapping_sub(4), true),
             (1, 1, 0, true),
         ] {
+            if pool == 4 && releasers == 3 && !reader {
+                // Also with a buffer size that is not a power of two.
+                v.push(th_harness("C08", c08_threads(C08Cfg { pool, buf_size: 6, releasers, shift, reader }, pb)));
+            }
             if quick && releasers == 3 && reader {
                 continue;
             }
@@ -491,7 +498,8 @@ fn c08(quick: bool) -> Vec<Harness> {
     }
     let d = |q: usize, t: usize| if quick { q } else { t };
     use Kind::*;
-    for (psize, bsize) in [(1u16, 8u32), (2, 1), (2, 8), (4, 8)] {
+    // (Buffer sizes that are not powers of two: the buffer id is an address difference divided by the size.)
+    for (psize, bsize) in [(1u16, 8u32), (2, 1), (2, 8), (4, 8), (4, 3), (2, 6)] {
         for shift in [0u16, 0u16.wrapping_sub(2 * psize), 0u16.wrapping_sub(psize)] {
             if quick && psize == 4 && shift != 0 {
                 continue;
@@ -539,6 +547,22 @@ fn c08(quick: bool) -> Vec<Harness> {
         cfg.allow_fresh = false;
         cfg.report = vec!["C08"];
         v.push(ops_harness(&format!("pool{psize}x{bsize}-reread{}", preset.len()), "C08", cfg, bounds(depth, d(2, 3), 4)));
+    }
+    {
+        // Life cycle of the pool, its handles and its ReadBufs (explicit release, re-use, handles dropped first).
+        use crate::c08life::{LifeWorld, cases};
+        let cs = std::rc::Rc::new(cases(quick));
+        let n = cs.len();
+        let (c1, c2) = (cs.clone(), cs.clone());
+        let depth = if quick { 7 } else { 9 };
+        let b = Bounds { depth: depth + 1, dev: 0, d_all: 4, merge: true, shard: (0, 1), cap_s: 0, shard_depth: 2 };
+        v.push(Harness {
+            name: "pool-life-cycle".to_string(),
+            describe: json!({"engine": "seqx", "world": "LifeWorld", "cases": n, "letters": "get a ReadBuf, read into it (2 bytes / 0 bytes; fresh, released or holding data), release() explicitly, clear(), drop it, drop the pool handle; two ReadBufs", "sequence_length": depth, "state_merging": "by model state and ring contents"}),
+            bounds: b,
+            run: Box::new(move |b| seqx::explore(&|| LifeWorld::new(c1.clone()), "C08", b)),
+            replay: Box::new(move |choices| seqx::exec(&|| LifeWorld::new(c2.clone()), "C08", choices)),
+        });
     }
     v
 }
@@ -672,13 +696,35 @@ fn c15(quick: bool) -> Vec<Harness> {
 fn c14(quick: bool) -> Vec<Harness> {
     let cases = crate::c14::cases(quick);
     let n = cases.len();
-    vec![crate::casex::case_harness(
+    let mut extra = Vec::new();
+    {
+        // The crate-private wrappers (SkipBuf behind write_all / send_all, ReadNBuf behind read_n /
+        // recv_n, the iovec skipping of the vectored forms) are only reachable through the composite
+        // operations: the C10 world, judged here by the pointer/length law alone.
+        use crate::c10::{C10World, read_cases, write_cases};
+        for (name, cases) in [("wrappers-behind-write_all-send_all", write_cases(quick)), ("wrappers-behind-read_n-recv_n", read_cases(quick))] {
+            let n = cases.len();
+            let cases = std::rc::Rc::new(cases);
+            let (c1, c2) = (cases.clone(), cases.clone());
+            let b = Bounds { depth: 16, dev: 0, d_all: 16, merge: false, shard: (0, 1), cap_s: 0, shard_depth: 1 };
+            extra.push(Harness {
+                name: name.to_string(),
+                describe: json!({"engine": "seqx", "world": "C10World (pointer/length law only, reporting as C14)", "cases": n, "answers": "every sequence of accepted/delivered byte counts 0..remaining for each request"}),
+                bounds: b,
+                run: Box::new(move |b| seqx::explore(&|| C10World::new(c1.clone()), "C14", b)),
+                replay: Box::new(move |choices| seqx::exec(&|| C10World::new(c2.clone()), "C14", choices)),
+            });
+        }
+    }
+    let mut v = vec![crate::casex::case_harness(
         "buffer-laws",
         "C14",
         cases,
         crate::c14::run,
         json!({"engine": "casex (bounded exhaustive enumeration)", "cases": n, "alphabet": "14 read-side buffer types x lengths {0,1,2,3,8,16} x limits {none,0,1,c-1,c,c+1,total,2^32-1,2^32,2^32+1,2^32+5,usize::MAX}; Vec<u8> write-side capacity {0,1,2,3,8,64} x fill x limits x every n; arrays and heterogeneous tuples of arity 1..8 over 5 size patterns incl. zero-size members x limits (also on and inside every member boundary) x every n"}),
-    )]
+    )];
+    v.extend(extra);
+    v
 }
 
 fn c16(quick: bool) -> Vec<Harness> {
@@ -923,6 +969,8 @@ fn c01(quick: bool) -> Vec<Harness> {
         cfg.sq = 4;
         cfg.pool = (2, 8);
         cfg.reread_held = true;
+        // (In-place edits before the buffer goes back to the kernel: what it is then given must still be the buffer's own slot.)
+        cfg.edit_held = true;
         cfg.shorts = true;
         cfg.costs.outcome = 1;
         cfg.allow_fresh = false;
